@@ -25,7 +25,9 @@ K3 == {"none", "lit", "sh"}
 K2 == {"none", "lit"}
 
 VarCfgs == [k : {"var"}, loc : {"root", "inc"}, task : K4, call : K2, incfile : K3, incstmt : K2, global : K4, cli : K2, os : K2]
-EnvCfgs == [k : {"env"}, tenv : BOOLEAN, tdot : BOOLEAN, genv : BOOLEAN, gdot : BOOLEAN, os : BOOLEAN, experiment : BOOLEAN]
+\* dotenv: which of the two listed files define E ("first" file wins)
+D4 == {"none", "first", "second", "both"}
+EnvCfgs == [k : {"env"}, tenv : BOOLEAN, tdot : D4, genv : BOOLEAN, gdot : D4, os : BOOLEAN, experiment : BOOLEAN]
 
 Apply(cur, kind, site) ==
   CASE kind = "none" -> cur
@@ -42,7 +44,9 @@ Value(c) ==
   IN Apply(v5, c.task, "task")
 
 EnvValue(c) ==
-  LET file == IF c.tenv THEN "tenv" ELSE IF c.tdot THEN "tdot" ELSE IF c.genv THEN "genv" ELSE IF c.gdot THEN "gdot" ELSE ""
+  LET dot(d, n) == IF d \in {"first", "both"} THEN n \o "1" ELSE n \o "2"
+      file == IF c.tenv THEN "tenv" ELSE IF c.tdot # "none" THEN dot(c.tdot, "tdot")
+              ELSE IF c.genv THEN "genv" ELSE IF c.gdot # "none" THEN dot(c.gdot, "gdot") ELSE ""
   IN IF c.experiment THEN (IF file # "" THEN file ELSE IF c.os THEN "os" ELSE "")
      ELSE (IF c.os THEN "os" ELSE file)
 
